@@ -118,6 +118,22 @@ def handle (op : String) (args : List String) (impl : Impl) : Option Ans :=
       | .other w => "FAIL:" ++ w
       | _ => "FAIL:decode"
     pure { model := (match m with | some x => "ok " ++ showDur x | none => "unmodelled"), spec := sp, branch := "acc17:" ++ name ++ ":" ++ e.ts.name }
+  | "acc17own", [name, e] => do
+    -- C17, Julian date in ET / TDB of an epoch HELD in that scale: no conversion is involved, so the duration view is
+    -- EXACTLY the epoch's count + J2000 (as a TAI-count constant) + 2415020.5 days, canonical; the days view is that
+    -- duration in days (4 ulp, and the proved 8-half-ulp bound)
+    let e ← parseEp? e
+    if !((name == "to_jde_et" && e.ts == TS.ET) || (name == "to_jde_tdb" && e.ts == TS.TDB)) then none else
+    let c : Int := 2415020 * 86400000000000 + 43200000000000 + 3155716800 * 1000000000
+    let want := sval e.dur + c
+    let sp := if !(inRange want) then noPanic impl else match impl with
+      | .ok [d, f] => (match parseDur? d, parseF? f with
+          | some d, some f => verdict [("canonical", scanon d), ("exact_affine_view", sval d == want),
+                                        ("days_within_4_ulp", withinUlps f want 86400000000000 1000000000 4)]
+          | _, _ => "FAIL:decode")
+      | .other w => "FAIL:" ++ w
+      | _ => "FAIL:decode"
+    pure { model := "-", spec := sp, branch := "acc17own:" ++ name ++ (if want % 3155760000000000000 == 0 then ":on_century" else "") }
   | "accf", [name, e] => do
     let e ← parseEp? e
     let (ts, c, u) ← accfSpec name
